@@ -402,7 +402,7 @@ def run(res, a):
     cov["traces_validated_against_impl"] = len(rows) - len(mism)
     cov["samples"] = [{"machine": cases[0][0]["bm"], "meta": cases[0][1]}]
     for text, rp in viol[:3]:
-        res.violation("C04 (simulator) " + text, rp)
+        res.violation("C04 " + ("" if "hardware" in text else "(simulator) ") + text, rp)
     if not viol:
         for i, t in hmism[:2]:
             res.violation("C04 hardware handshake automaton and emitted Verilog (under Vlog.Sem) disagree at clock %d" % t,
